@@ -6,7 +6,8 @@ CONSTANTS D = 4
           FaultCutoff = 2
           MinLife = 72
           MaxLife = 480000
-          PostedPartsMax = 3
+          AddrSectorsMax = 4
+          AddrPartsMax = 3
           MaxEpoch = 30
           MaxSectors = 2
           ExportLen = 0
